@@ -10,6 +10,10 @@ CONSTANTS
   NDup = 1
   MaxUid = 12
   Bug = "emptyQueueIndex"
+  ErrSts = {1}
+  HostSts = {1}
+  DeckMems = {}
+  SendFail = FALSE
 INVARIANT UidBound
 INVARIANT AtMostOnce
 INVARIANT Limits
